@@ -251,8 +251,15 @@ def _reset_diagonals(tree, out):
 def _solve(tree, out):
     fn = _method(tree, 'PenalizedSystem', 'solve')
     body = _body_wo_doc(fn)
-    if not (len(body) == 2 and isinstance(body[0], ast.If) and _u(body[1]) == 'return output'):
-        raise TranslateError('PenalizedSystem.solve: body is not `if ...: ...` + `return output`')
+    # optional tail between the chain and the return: `if check_output and ...: raise ...` (output validation, no dispatch)
+    checks = [st for st in body[1:-1]]
+    for st in checks:
+        names = {n.id for n in ast.walk(st.test) if isinstance(n, ast.Name)} if isinstance(st, ast.If) else set()
+        if not (isinstance(st, ast.If) and 'check_output' in names and not st.orelse and len(st.body) == 1
+                and isinstance(st.body[0], ast.Raise)):
+            raise TranslateError('PenalizedSystem.solve: unrecognised statement between the dispatch chain and the return: ' + _u(st)[:80])
+    if not (len(body) >= 2 and isinstance(body[0], ast.If) and _u(body[-1]) == 'return output'):
+        raise TranslateError('PenalizedSystem.solve: body is not `if ...: ...` [+ output check] + `return output`')
     arms = []
     node = body[0]
     while True:
@@ -307,6 +314,7 @@ def _solve(tree, out):
             raise TranslateError(f'PenalizedSystem.solve: unknown entry point {f}')
     out.append('(* PenalizedSystem.solve (and _pentapy_solver) *)')
     out.append('Definition solve_chain : list (dcond * dcall) := [' + '; '.join(entries) + '].')
+    out.append('Definition solve_output_checks : Z := ' + str(len(checks)) + '.')
 
 
 def _try_flag(tree, flag, module):
